@@ -393,6 +393,8 @@ private:
             }
         }
         // initialize handles_ vector
+        // forget the positions of keys that are no longer in the heap
+        std::fill(handles_.begin(), handles_.end(), not_present());
         handles_.resize(
             std::max(handles_.size(), static_cast<size_t>(max_key) + 1),
             not_present());
